@@ -496,6 +496,9 @@ def to_any(v):
         return VAny(Val.tok(unwrap(Ty('Token'), v)))
     if isinstance(v, VConc):
         return VAny(Val.obj(z3.IntVal(conc_oid(v.obj))))
+    if isinstance(v, (VRec, VList, VDict, VFunc, VTuple, VExc)):
+        # mutable / opaque python objects stored into a dynamically typed slot: identity only
+        return VAny(Val.obj(z3.IntVal(conc_oid(v))))
     raise Unsupported('to_any(%r)' % (v,))
 
 
@@ -562,7 +565,7 @@ def is_none(v):
 
 
 def strterm(v):
-    if isinstance(v, (VStr, VToken, VBytes)):
+    if isinstance(v, (VStr, VToken, VBytes)) or getattr(v, 'kind', '') == 'seg':
         return v.t
     if isinstance(v, VOpt):
         return strterm(v.val)
